@@ -137,10 +137,10 @@ def agree(c_res, m, stats):
 
 _SYMS = None; _AW = None
 def _tables():
-    """element symbols (src/xrayvars.c MendelArray) and atomic weights (data/atomicweight.dat), read independently of the library"""
+    """element symbols (src/xrayglob.c MendelArray) and atomic weights (data/atomicweight.dat), read independently of the library"""
     global _SYMS, _AW
     if _SYMS is None:
-        txt = open(os.path.join(REPO, 'src', 'xrayvars.c')).read()
+        txt = open(os.path.join(REPO, 'src', 'xrayglob.c')).read()
         m = re.search(r'MendelArray\s*\[[^\]]*\]\s*=\s*\{(.*?)\};', txt, re.S)
         _SYMS = {sym: int(z) for z, sym in re.findall(r'\{\s*(\d+)\s*,\s*"(\w+)"\s*\}', m.group(1))} if m else {}
         _AW = {}
